@@ -5,8 +5,8 @@ Mirrors, from `src/enc/encode.rs`: `SanitizeParams`, `ComputeLgBlock`,
 `ComputeRbBits`, `EncodeWindowBits`, the header part of `ensure_initialized`
 (quality 0/1 declare `max(lgwin, 18)`), `update_size_hint`, the head of
 `encode_data` (magic block on the very first call, the catable 2-byte prelude)
-and the dispatch `compress_stream` → `compress_stream_fast` (quality 0/1 and
-not catable: `encode_data` is never reached, so no magic block and no prelude);
+and the dispatch `compress_stream` → `compress_stream_fast` (quality 0/1, not
+catable, no magic number: `encode_data` is never reached);
 from `src/enc/brotli_bit_stream.rs`: `encode_base_128`,
 `BrotliWriteMetadataMetaBlock`, `BrotliStoreUncompressedMetaBlockHeader`
 (+`BrotliEncodeMlen`), `store_uncompressed_meta_block`, `JumpToByteBoundary`,
@@ -280,8 +280,8 @@ deriving Repr
 /-- `compress_stream(FINISH)` on a fresh encoder with the whole `input` (shorter
 than one input block) available: the payload-independent beginning.
 
-* quality 0/1 and not catable → `compress_stream_fast`: pending window bits, then
-  the fragment coder (`is_last` with no input: bits `1,1` and padding);
+* quality 0/1, not catable and no magic number → `compress_stream_fast`: pending
+  window bits, then the fragment coder (`is_last` with no input: bits `1,1` and padding);
 * otherwise → `update_size_hint`, `encode_data`: magic block if `magic_number`,
   then, if catable and there is input, an uncompressed meta-block with the first
   `min(2, n)` bytes; if nothing is left, the empty last meta-block
@@ -291,7 +291,7 @@ def streamStart (largeOk : Bool) (p0 : Params) (input : List Nat) : Out Start :=
   let i := ensureInitialized largeOk p0
   let p := i.params
   let w := pendingWriter i
-  if (p.quality = 0 ∨ p.quality = 1) ∧ ¬ p.catable then
+  if (p.quality = 0 ∨ p.quality = 1) ∧ ¬ p.catable ∧ ¬ p.magicNumber then
     if input.isEmpty then do
       let w ← writeEmptyLastMetaBlock w
       ok { bits := w, whole := true, magic := false, prelude := 0 }
